@@ -10,7 +10,7 @@ lake build Cardutil driver 2>&1 | grep -v '^⚠\|^✔\|^ℹ\|^warning\|^Note\|^H
 # the source-tie modules (translated Python = model); a failure here is not fatal: the checks report it as
 # "source tie not established" and fall back on the behavioural correspondence
 lake build Cardutil.SrcTie.Card Cardutil.SrcTie.Misc Cardutil.SrcTie.Info Cardutil.SrcTie.Pds Cardutil.SrcTie.Block \
-  Cardutil.SrcTie.Unblock Cardutil.SrcTie.Reader Cardutil.SrcTie.Writer Cardutil.SrcTie.RoundTrip Cardutil.SrcTie.Pin Cardutil.SrcTie.Bits Cardutil.SrcTie.Field Cardutil.SrcTie.Loop Cardutil.SrcTie.EncLoop Cardutil.SrcTie.Param Cardutil.SrcTie.Conv Cardutil.SrcTie.OneShot Cardutil.SrcTie.Keys Cardutil.SrcTie.IpmReader Cardutil.SrcTie.IpmRoundTrip Cardutil.SrcTie.ParamRow Cardutil.SrcTie.ParamIndex Cardutil.SrcTie.Carriers Cardutil.SrcTie.Blocked Cardutil.SrcTie.IpmBlocked Cardutil.SrcTie.Entry Cardutil.SrcTie.Value Cardutil.SrcTie.LoopRoundTrip 2>&1 | grep '^error' | head -10 || true
+  Cardutil.SrcTie.Unblock Cardutil.SrcTie.Reader Cardutil.SrcTie.Writer Cardutil.SrcTie.RoundTrip Cardutil.SrcTie.Pin Cardutil.SrcTie.Bits Cardutil.SrcTie.Field Cardutil.SrcTie.Loop Cardutil.SrcTie.EncLoop Cardutil.SrcTie.Param Cardutil.SrcTie.Conv Cardutil.SrcTie.OneShot Cardutil.SrcTie.Keys Cardutil.SrcTie.IpmReader Cardutil.SrcTie.IpmRoundTrip Cardutil.SrcTie.ParamRow Cardutil.SrcTie.ParamIndex Cardutil.SrcTie.Carriers Cardutil.SrcTie.Blocked Cardutil.SrcTie.IpmBlocked Cardutil.SrcTie.Entry Cardutil.SrcTie.Value Cardutil.SrcTie.LoopRoundTrip Cardutil.SrcTie.FieldWhole 2>&1 | grep '^error' | head -10 || true
 test -x .lake/build/bin/driver
 echo ping | .lake/build/bin/driver | grep -q pong
 echo "setup ok"
